@@ -46,7 +46,7 @@ type Prop struct{}
 func (Prop) ID() string    { return "C18" }
 func (Prop) Level() string { return "exploration" }
 func (Prop) Rule() string {
-	return "ring: every node-type pattern of length 1..6 over the alphabet {tree-only, tree+other types, non-tree} (thorough: 5 letters, adding tree+file and coordinator+consensus) and ring7: the patterns of length 7 over the 3-letter alphabet (quick: every third one, thorough: all) are one configuration each with PRNG peer ids; every node and a client get their own nodeconf.Service (app container, stub source/store/checker) and are asked NodeIds/IsResponsible/Partition for 200 (thorough 400) space ids (with suffix, shared suffixes, no dot, empty suffix, several dots, empty id); the same questions are asked on 6 rewritings of the configuration that keep the tree-node set (permuted, non-tree nodes added, non-tree nodes dropped, extra types stripped, metadata/addresses changed, reversed). A configuration is non-trivial when it has >= 2 tree nodes; distinct = (pattern, concrete types, peer ids). paths: random configurations whose participants receive the configuration directly, from the store, or through a source update while running."
+	return "ring: every node-type pattern of length 1..5 and every third of length 6 over the alphabet {tree-only, tree+other types, non-tree} (thorough: all patterns of length 1..6 over 5 letters, adding tree+file and coordinator+consensus) and ring7: the patterns of length 7 over the 3-letter alphabet (quick: every ninth, thorough: all) are one base configuration each with PRNG peer ids; every node and a client get their own nodeconf.Service (app container, stub source/store/checker) and are asked NodeIds/IsResponsible/Partition for 200 (thorough 400) space ids (with suffix, shared suffixes, no dot, empty suffix, several dots, empty id); the same questions are asked on rewritings of the configuration that keep the tree-node set (quick: 3 of 6 per base configuration, alternating; thorough: all 6) (permuted, non-tree nodes added, non-tree nodes dropped, extra types stripped, metadata/addresses changed, reversed). A configuration is non-trivial when it has >= 2 tree nodes; distinct = (pattern, concrete types, peer ids). paths: random configurations whose participants receive the configuration directly, from the store, or through a source update while running."
 }
 func (Prop) Assumptions() []string {
 	return []string{
@@ -85,23 +85,27 @@ func patterns(tier, wl string) []string {
 			}
 		}
 	}
+	thin := func(k int) {
+		var s []string
+		for i := 0; i < len(out); i += k {
+			s = append(s, out[i])
+		}
+		out = s
+	}
 	switch {
 	case wl == "ring7":
 		gen("TMN", 7)
 		if tier != "thorough" {
-			// quick: every third pattern of length 7
-			var s []string
-			for i := 0; i < len(out); i += 3 {
-				s = append(s, out[i])
-			}
-			out = s
+			thin(9) // quick: every ninth pattern of length 7
 		}
 	case tier == "thorough":
 		for n := 1; n <= 6; n++ {
 			gen("TMNFC", n)
 		}
 	default:
-		for n := 1; n <= 6; n++ {
+		gen("TMN", 6)
+		thin(3) // quick: every third pattern of length 6, all shorter ones
+		for n := 1; n <= 5; n++ {
 			gen("TMN", n)
 		}
 	}
@@ -149,8 +153,8 @@ func (Prop) Plan(tier string) []lib.Workload {
 		paths = 2400
 	}
 	return []lib.Workload{
-		{Name: "ring", Cases: len(patterns(tier, "ring")), Exhaustive: true, MinNontrivial: 500, BatchTimeout: 40 * time.Minute},
-		{Name: "ring7", Cases: len(patterns(tier, "ring7")), Exhaustive: tier == "thorough", MinNontrivial: 300, BatchTimeout: 40 * time.Minute},
+		{Name: "ring", Cases: len(patterns(tier, "ring")), Exhaustive: tier == "thorough", MinNontrivial: 400, BatchTimeout: 40 * time.Minute},
+		{Name: "ring7", Cases: len(patterns(tier, "ring7")), Exhaustive: tier == "thorough", MinNontrivial: 200, BatchTimeout: 40 * time.Minute},
 		{Name: "paths", Cases: paths, MinNontrivial: 50, CaseTimeout: 5 * time.Minute},
 	}
 }
@@ -523,6 +527,33 @@ func describeCfg(cfg nodeconf.Configuration) []map[string]any {
 	return o
 }
 
+// viol records the first violation of a key within a case and counts the others:
+// one wrong ring makes every (participant, id) pair fail, and a witness per pair is noise.
+type viol struct {
+	c    *lib.Case
+	seen map[string]int
+}
+
+func (v *viol) Violation(key, what string, detail any) {
+	if v.seen == nil {
+		v.seen = map[string]int{}
+	}
+	v.seen[key]++
+	if v.seen[key] == 1 {
+		v.c.Violation(key, what, detail)
+	} else {
+		v.c.Count("violations_beyond_first_per_case_and_key", 1)
+	}
+}
+
+// caseV is a lib.Case whose Violation goes through the limiter.
+type caseV struct {
+	*lib.Case
+	v *viol
+}
+
+func (c *caseV) Violation(key, what string, detail any) { c.v.Violation(key, what, detail) }
+
 type answer struct {
 	ids  []string
 	resp bool
@@ -532,7 +563,7 @@ type answer struct {
 // checkAll asks every participant about every space id and applies the oracle.
 // The reference set of an id is the union-set of the first participant; all
 // others are compared with it, so a disagreement is reported once per class.
-func checkAll(c *lib.Case, cfg nodeconf.Configuration, ps []*participant, qs []spaceQ, tag string) (sets map[string][]string) {
+func checkAll(c *caseV, cfg nodeconf.Configuration, ps []*participant, qs []spaceQ, tag string) (sets map[string][]string) {
 	var treeIds []string
 	for _, n := range cfg.Nodes {
 		if isTree(n) {
@@ -609,6 +640,7 @@ func checkAll(c *lib.Case, cfg nodeconf.Configuration, ps []*participant, qs []s
 				c.Violation("node-ids-not-set-minus-self:"+p.kind+":"+p.mode.String(), "NodeIds is not the responsible set minus the participant",
 					detail(q, map[string]any{"participant": p.id, "node_ids": a.ids, "set": S}))
 			}
+			c.Count("info.partition_comparisons", 1)
 			if a.part != ans[len(ps)-1].part {
 				c.Count("info.partition_disagreement", 1)
 			}
@@ -681,7 +713,8 @@ func runRing(c *lib.Case) {
 	runConfig(c, cfg, qs, func(i int) mode { return modeDirect }, nil, pat)
 }
 
-func runConfig(c *lib.Case, cfg nodeconf.Configuration, qs []spaceQ, modeOf func(i int) mode, old *nodeconf.Configuration, pat string) {
+func runConfig(c0 *lib.Case, cfg nodeconf.Configuration, qs []spaceQ, modeOf func(i int) mode, old *nodeconf.Configuration, pat string) {
+	c := &caseV{Case: c0, v: &viol{c: c0}}
 	var ps []*participant
 	defer func() {
 		for _, p := range ps {
@@ -708,7 +741,7 @@ func runConfig(c *lib.Case, cfg nodeconf.Configuration, qs []spaceQ, modeOf func
 		c.Count("participants."+kind+"."+p.mode.String(), 1)
 	}
 	// the client is always last and always direct: it is the reference view
-	cl, err := startParticipant(newPeerId(c), "client", modeDirect, cfg, old)
+	cl, err := startParticipant(newPeerId(c0), "client", modeDirect, cfg, old)
 	if err != nil {
 		c.Violation("start-error:client", "a client could not start with a well-formed configuration", map[string]any{"config": describeCfg(cfg), "err": err.Error()})
 		return
@@ -743,14 +776,17 @@ func runConfig(c *lib.Case, cfg nodeconf.Configuration, qs []spaceQ, modeOf func
 	c.Sample(fmt.Sprintf("tree%d", nTree), map[string]any{"pattern": pat, "types": patternOf(cfg), "example_id": qs[len(qs)-1].id, "example_set": base[qs[len(qs)-1].id]})
 
 	// rewritings of the configuration that keep the tree-node set: asked from a fresh client and from one node
-	vs := variants(c, cfg)
+	vs := variants(c0, cfg)
 	names := make([]string, 0, len(vs))
 	for k := range vs {
 		names = append(names, k)
 	}
 	sort.Strings(names)
 	for vi0, name := range names {
-		vi := vi0 + c.Index
+		vi := vi0/2 + c.Index/2 + vi0
+		if c.Quick() && (vi0+c.Index)%2 == 1 {
+			continue // quick: three of the six rewritings per configuration, alternating
+		}
 		v := vs[name]
 		var vps []*participant
 		// asked from one fresh participant: alternately a tree node of the rewritten configuration and a client
@@ -768,7 +804,7 @@ func runConfig(c *lib.Case, cfg nodeconf.Configuration, qs []spaceQ, modeOf func
 			}
 		}
 		if len(vps) == 0 {
-			vc, err := startParticipant(newPeerId(c), "client", modeDirect, v, nil)
+			vc, err := startParticipant(newPeerId(c0), "client", modeDirect, v, nil)
 			if err != nil {
 				c.Violation("start-error:variant:"+name, "a client could not start on a rewritten configuration", map[string]any{"config": describeCfg(v), "err": err.Error()})
 				return
@@ -805,7 +841,7 @@ func runConfig(c *lib.Case, cfg nodeconf.Configuration, qs []spaceQ, modeOf func
 				break
 			}
 		}
-		if p, err := startParticipant(newPeerId(c), "client", modeDirect, less, nil); err == nil {
+		if p, err := startParticipant(newPeerId(c0), "client", modeDirect, less, nil); err == nil {
 			moved := 0
 			for _, q := range qs {
 				if !eq(sortedSet(p.svc.NodeIds(q.id)), base[q.id]) {
